@@ -48,6 +48,8 @@ func (g *gen) depth() int { return len(g.wd.art.stageCps) }
 // unwind: probes + close every open stage (alternating cleanup / release), each checked by the view oracle
 func (g *gen) finish(alt int) {
 	g.do("view")
+	g.do("tdump")
+	g.do("rbtchk")
 	g.do("snapchk")
 	for d := g.depth(); d > 0; d-- {
 		if (d+alt)%2 == 0 {
@@ -658,6 +660,106 @@ func (g *gen) nodes(variant int) {
 	g.do("nrlist")
 }
 
+// paths: the path logic of the radix tree under the structure differential (tdump after every write).  Shared prefixes of
+// 0..40 bytes around the in-node bound of 20, keys that end inside a prefix, mismatches before / at / after byte 20 of a
+// prefix, prefixes below prefixes, and fan-outs of all four node sizes on one path.
+func (g *gen) paths(variant int) {
+	r := g.r
+	g.startCase("paths", "reset")
+	L := []int{0, 1, 5, 18, 19, 20, 21, 22, 25, 40}[variant%10]
+	P := make([]byte, L)
+	for i := range P {
+		P[i] = byte(0x40 + i%7)
+	}
+	var pool [][]byte
+	add := func(k []byte) { pool = append(pool, append([]byte{}, k...)) }
+	cat := func(parts ...[]byte) []byte {
+		var o []byte
+		for _, p := range parts {
+			o = append(o, p...)
+		}
+		return o
+	}
+	add(cat(P, []byte{1}))
+	add(cat(P, []byte{2}))
+	add(P) // ends exactly at the node
+	for _, j := range []int{0, 1, L / 2, 19, 20, 21, L - 1} {
+		if j >= 0 && j < L {
+			add(P[:j]) // ends inside the prefix
+			q := append([]byte{}, P...)
+			q[j] ^= 0x80 // mismatch inside the prefix
+			add(q)
+			add(cat(q, []byte{7}))
+		}
+	}
+	// a second long prefix below the first
+	Q := make([]byte, 18+r.Intn(8))
+	for i := range Q {
+		Q[i] = byte(0x60 + i%5)
+	}
+	add(cat(P, []byte{3}, Q, []byte{1}))
+	add(cat(P, []byte{3}, Q, []byte{2}))
+	add(cat(P, []byte{3}, Q))
+	add(cat(P, []byte{3}, Q[:len(Q)-2], []byte{0xee, 0xee, 5}))
+	// fan-out under P: node sizes 4 / 16 / 48 / 256 on the same path
+	fan := []int{0, 6, 18, 50, 257}[(variant/10)%5]
+	for i := 0; i < fan && i < 256; i++ {
+		add(cat(P, []byte{byte((i * 5) % 256)}))
+		if i%9 == 0 {
+			add(cat(P, []byte{byte((i * 5) % 256), 0}))
+		}
+	}
+	if r.Bool() {
+		add([]byte{})
+	}
+	// random order
+	for i := len(pool) - 1; i > 0; i-- {
+		j := r.Intn(i + 1)
+		pool[i], pool[j] = pool[j], pool[i]
+	}
+	probe := func(k []byte) {
+		g.do("tsearch " + vx.Hex(k))
+		if len(k) > 0 {
+			q := append([]byte{}, k...)
+			q[len(q)-1] ^= 1
+			g.do("tsearch " + vx.Hex(q))
+			g.do("tsearch " + vx.Hex(k[:len(k)-1]))
+		}
+		if len(k) > 21 {
+			q := append([]byte{}, k...)
+			q[21] ^= 2 // differs only beyond the in-node prefix bytes
+			g.do("tsearch " + vx.Hex(q))
+		}
+		g.do("tsearch " + vx.Hex(append(append([]byte{}, k...), 0)))
+	}
+	for i, k := range pool {
+		switch r.Intn(5) {
+		case 0:
+			g.do("upd " + vx.Hex(k) + " 4")
+		case 1:
+			g.do("del " + vx.Hex(k))
+		default:
+			g.do("set " + vx.Hex(k) + " aa")
+		}
+		if fan <= 18 || i%16 == 0 || i == len(pool)-1 {
+			g.do("tdump")
+			g.do("rbtchk")
+		}
+		if i%3 == 0 {
+			probe(pool[r.Intn(i+1)])
+		}
+	}
+	g.do("tdump")
+	g.do("rbtchk")
+	g.do("rbtkeys")
+	g.do("tkeys 0")
+	g.do("tkeys 1")
+	g.do("iterf - -")
+	for _, k := range pool {
+		g.do("tsearch " + vx.Hex(k))
+	}
+}
+
 func generate(run *vx.Run, wd *world) {
 	g := &gen{run: run, wd: wd, r: vx.NewRand(run.Seed)}
 	pool := exhaustivePool()
@@ -669,6 +771,13 @@ func generate(run *vx.Run, wd *world) {
 	}
 	for i := 0; i < nb; i++ {
 		g.blocks(i)
+	}
+	np := 50
+	if run.Thorough() {
+		np = 500
+	}
+	for i := 0; i < np; i++ {
+		g.paths(i)
 	}
 	nn := 56
 	if run.Thorough() {
